@@ -4,12 +4,17 @@ import json, os
 V = os.path.dirname(os.path.dirname(os.path.abspath(__file__)))
 ALL = ['C%02d' % i for i in range(1, 21)]
 
-# id -> (technique, level text, level note, design section)
-CHECKS = {
- 'C01': ('Coq theorems (pointwise spec of list surgery, guards = span test) + in-Coq evaluation of model and spec on implementation outcomes',
-         'Theorems c01_substitute/insert/delete/multisubstitute/randomize: for all tensors, motifs and integer positions the executable model satisfies the decidable pointwise spec; the model is tied to /repo by running the real ersatz functions on an exhaustive small scope + random cases and letting coqc evaluate model-equality and the spec on each implementation outcome.',
-         'Trusted: Coq kernel/VM, harness canonicalisation of tensors, torch slicing; aliasing (inputs unmodified) is observed, not modelled.', '7 C01'),
-}
+def load_entries():
+    out = {}
+    d = os.path.join(V, 'tools', 'entries')
+    for f in sorted(os.listdir(d)):
+        if f.endswith('.json'):
+            out[f[:-5]] = json.load(open(os.path.join(d, f)))
+    return out
+
+ENTRIES = load_entries()
+CHECKS = {pid: (e['check']['technique'], e['check']['text'], e['check']['note'], e['check'].get('design_ref', '7 ' + pid))
+          for pid, e in ENTRIES.items() if e.get('check')}
 NOT_YET = 'check not built yet in this session (design in DESIGN.md section 7); not claimed'
 
 def main():
@@ -29,16 +34,13 @@ def main():
             'level_note': note,
             'technique': tech,
         })
-    extra = {}
-    p = os.path.join(V, 'tools', 'not_applicable.json')
-    if os.path.exists(p):
-        extra = json.load(open(p))
+    extra = {pid: e['not_applicable'] for pid, e in ENTRIES.items() if e.get('not_applicable')}
     man = {
         'version': 1,
         'setup_cmd': './setup.sh',
         'hooks': {'guard': 'TANGERMEME_VERIF', 'enable': 'export TANGERMEME_VERIF=1 (set by ./check); no build step, /repo is imported from the working tree via PYTHONPATH',
                   'baseline_off_cmd': 'cd /repo && env -u TANGERMEME_VERIF /venv/bin/python -m pytest -ra -q -p no:cacheprovider --timeout=900 --continue-on-collection-errors',
-                  'source_commits': json.load(open(os.path.join(V, 'tools', 'hook_commits.json'))) if os.path.exists(os.path.join(V, 'tools', 'hook_commits.json')) else [],
+                  'source_commits': sorted({c for e in ENTRIES.values() for c in e.get('hook_commits', [])}),
                   'add_only': True},
         'engines': [{'name': 'coq-correspondence', 'path': '/verif/coq + /verif/harness',
                      'serves_properties': [c['property_id'] for c in checks],
@@ -48,6 +50,9 @@ def main():
         'notes': 'See DESIGN.md. KNOWN_FINDINGS.json lists repaired defects (fixed:) and open findings.',
     }
     json.dump(man, open(os.path.join(V, 'MANIFEST.json'), 'w'), indent=1)
+    findings = [f for pid in sorted(ENTRIES) for f in ENTRIES[pid].get('findings', [])]
+    json.dump({'_doc': "Committed list of genuine defects of jmschrei/tangermeme found by the checks (assembled from tools/entries/*.json by tools/gen_manifest.py, never at check time). status=fixed entries record a 'fix:' commit in /repo and suppress nothing; status=open entries are matched structurally (tag) on a failing case and are then reported as KNOWN-FINDING instead of VIOLATION.",
+               'findings': findings}, open(os.path.join(V, 'KNOWN_FINDINGS.json'), 'w'), indent=1)
 
 if __name__ == '__main__':
     main()
